@@ -1513,7 +1513,8 @@ def shrink_history(steps, key):
             r = run_history(h)
         except Exception:
             return None
-        return r if r and r[0] == key else None
+        # a failure that survives without the failed call is a plain instance-reuse failure: let the shrink drop it
+        return r if r and r[0].replace("-after-error-", "-") == key.replace("-after-error-", "-") else None
     r = fails(steps)
     if not r:
         return steps, r
